@@ -23,7 +23,12 @@
                             '.'-separated segments, each accepted by DecodeAnyBase64 (necessary condition read
                             off ParseJWT; C18's model is_jwt satisfies it: C05_jwt_model_possible)
      cert_oracle_ok L k d   x509 accepts d iff k = 0
-     reserved_in table n    the base name of n is one of the table's name patterns *)
+     reserved_in table n    the base name of n is one of the table's name patterns
+     inspect_read limit     file.Inspect with its read limit: inspect_file on read_limited limit data
+                            (io.ReadAll(io.LimitReader(f, MaxReadSize)), max_read_size = 128 000 000)
+     parse_pem_block        parsePEMBlock after the repair of C05-F3 (a CERTIFICATE block whose content
+                            crypto/x509 rejects is described by ASN1File if it is one ASN.1 value);
+                            parse_pem_block_gen false: before the repair *)
 From WI Require Import Lib.Base Lib.Info Lib.Strings Model.Base64 Model.Dispatch Model.Render Model.Pem Model.Routes.
 From WI Require Import Proofs.Routes Proofs.RoutesWhole.
 From WI Require Proofs.Pem Model.Jwt.
